@@ -25,7 +25,7 @@ QUICK = [
 ]
 THOROUGH = [
     ("levels", "MC_FeaturizerSpec_levels_thorough.cfg"),
-    ("levels4", "MC_FeaturizerSpec_levels4_quick.cfg"),
+    ("levels4", "MC_FeaturizerSpec_levels4_thorough.cfg"),
     ("levels5", "MC_FeaturizerSpec_levels5_thorough.cfg"),
     ("interval", "MC_FeaturizerSpec_interval_thorough.cfg"),
     ("features", "MC_FeaturizerSpec_features_thorough.cfg"),
@@ -36,11 +36,12 @@ SAMPLE_MOD = {
     "MC_FeaturizerSpec_levels4_quick.cfg": 1,
     "MC_FeaturizerSpec_interval_quick.cfg": 1,
     "MC_FeaturizerSpec_features_quick.cfg": 2,
-    "MC_FeaturizerSpec_levels_thorough.cfg": 8,
+    "MC_FeaturizerSpec_levels_thorough.cfg": 16,
+    "MC_FeaturizerSpec_levels4_thorough.cfg": 1,
     "MC_FeaturizerSpec_levels5_thorough.cfg": 8,
     "MC_FeaturizerSpec_interval_thorough.cfg": 1,
-    "MC_FeaturizerSpec_features_thorough.cfg": 4,
-    "MC_FeaturizerSpec_joint_thorough.cfg": 4,
+    "MC_FeaturizerSpec_features_thorough.cfg": 8,
+    "MC_FeaturizerSpec_joint_thorough.cfg": 8,
 }
 
 # A genuine finding that cannot be registered in the shared known_findings.json by this engine (see docs/featurizer.md,
